@@ -152,7 +152,17 @@ func (ck *Check) finish(level string) int {
 		}
 	}
 	for _, e := range ck.outOfSub {
-		ck.engineErr = append(ck.engineErr, e)
+		// A function under contract that can no longer be translated leaves all
+		// of its obligations undecided. On the unchanged tree this never happens
+		// (every function under contract is in the subset); after a change it is
+		// reported like any other obligation that used to be discharged.
+		violations++
+		obligations++
+		name := "in-subset/" + strings.SplitN(e, ":", 2)[0]
+		path := ck.writeSimpleReplay(replayDir, name, map[string]any{"property": ck.Prop, "obligation": name, "kind": "subset",
+			"solver_status": "undecided", "reason": e,
+			"explanation": "the function left the subset govc can translate, so none of its obligations could be generated; no counterexample is available"})
+		fmt.Printf("VIOLATION property=%s replay=%s no-failing-input-found\n", ck.Prop, path)
 	}
 	var fns []string
 	for f := range fnSet {
